@@ -182,9 +182,14 @@ def run(ctx):
               expected="time = Some(Duration::from_millis(move_time))", found=[hir.fmt(c[3], 80) for c in mt])
     # later adjustment: only a saturating subtraction of a constant
     adj = [n for n in lets.get("time", []) if hir.strip(n["init"]).get("k") == "MethodCall"]
-    ok = len(adj) == 1 and hir.fmt(sym(adj[0]["init"]), 80) == "Duration::saturating_sub(time, Duration::from_millis(5))"
+    ok = False
+    if len(adj) == 1:
+        t_ = sym(adj[0]["init"])
+        # time.saturating_sub(<a constant duration>): the subtrahend mentions no variable
+        if t_[0] == "call" and str(t_[1]).endswith("Duration::saturating_sub") and len(t_[2]) == 2 and t_[2][0] == ("var", "time"):
+            ok = not any(x[:1] in (("var",), ("field",), ("index",)) for x in hir.subterms(t_[2][1]))
     ctx.check("C13.A4", "only-a-saturating-safety-margin-is-subtracted", ok, fn=GO, file=fn["file"], line=hir.line(adj[0]) if adj else None,
-              what="after the budget is chosen it may only be reduced, with saturation", expected="time.saturating_sub(Duration::from_millis(5))",
+              what="after the budget is chosen it may only be reduced, with saturation", expected="time.saturating_sub(<constant duration>)",
               found=[hir.fmt(sym(a["init"]), 80) for a in adj])
     # A5
     ws, wsym = fmt_writes(fn, F)
